@@ -148,6 +148,7 @@ func (sf *StreamFactory) createStreamInstance(config types.Config, win window.Wi
 		resultChan:       make(chan []map[string]any, perfConfig.BufferConfig.ResultChannelSize),
 		seenResults:      &sync.Map{},
 		done:             make(chan struct{}),
+		stopFinished:     make(chan struct{}),
 		sinkWorkerPool:   make(chan func(), perfConfig.WorkerConfig.SinkPoolSize),
 		allowDataDrop:    perfConfig.OverflowConfig.AllowDataLoss,
 		blockingTimeout:  perfConfig.OverflowConfig.BlockTimeout,
